@@ -228,7 +228,8 @@ pub fn gen_commit(rng: &mut Rng, plan: &mut Plan, n: u64, mutate: bool, tune: bo
 
 /// The generator's own simulation of the chain as seen by the channel's monitor: the channel is set up at
 /// height 3 (three seed headers); `blocks[i]` is the kind of the block at height 4+i
-/// (0 = unrelated, 1 = contains the funding tx, 2 = contains a spend of the funding outpoint).
+/// (0 = unrelated, 1 = contains the funding tx, 2/3/4 = contains a spend of the funding outpoint: a plain
+/// transaction, the holder's commitment, the counterparty's commitment).
 pub struct ChainSim {
     pub blocks: Vec<u64>,
 }
@@ -239,8 +240,8 @@ impl ChainSim {
     }
     pub fn state(&self) -> (u64, u64, u64) {
         let n = self.blocks.len() as u64;
-        let depth = |k: u64| self.blocks.iter().position(|b| *b == k).map(|i| n - i as u64).unwrap_or(0);
-        (3 + n, depth(1), depth(2))
+        let depth = |ks: &[u64]| self.blocks.iter().position(|b| ks.contains(b)).map(|i| n - i as u64).unwrap_or(0);
+        (3 + n, depth(&[1]), depth(&[2, 3, 4]))
     }
     pub fn good(&self) -> bool {
         let (_, fd, cd) = self.state();
@@ -249,7 +250,7 @@ impl ChainSim {
     pub fn can(&self, kind: u64) -> bool {
         match kind {
             1 => !self.blocks.contains(&1),
-            2 => self.blocks.contains(&1) && !self.blocks.contains(&2),
+            2 | 3 | 4 => self.blocks.contains(&1) && !self.blocks.iter().any(|b| *b >= 2),
             _ => true,
         }
     }
@@ -286,6 +287,11 @@ pub fn gen_onchain_case(rng: &mut Rng) -> Vec<String> {
     let mut pending: Option<Commit> = None;
     let mut cur_hold: Option<Commit> = None;
     let mut cur_cp: Option<Commit> = None;
+    // With the on-chain gate downgraded to a warning the commitment state can advance *after* a commitment
+    // transaction confirmed; reorging that block out then makes the unchanged monitor re-read a commitment that
+    // has become the counterparty's PREVIOUS one and panic (finding F-C05-M1).  Until that is fixed in /repo the
+    // random walk confirms real commitment transactions only while the gate is enforced.
+    let spend_kinds: &[u64] = if pol.errs(BIT_ACTIVE_UTXO) { &[2, 3, 4] } else { &[2] };
     let gate_ok = |sim: &ChainSim, n: u64, pol: &Pol| n == 0 || sim.good() || !pol.errs(BIT_ACTIVE_UTXO);
     // a scripted prefix that puts one side ahead of the other, then the free walk
     let mut script: Vec<&str> = match rng.below(6) {
@@ -305,7 +311,9 @@ pub fn gen_onchain_case(rng: &mut Rng) -> Vec<String> {
         match act {
             "fund" => if sim.can(1) { ops.push(sim.blk(1)) } else { ops.push(sim.blk(0)) },
             "mine" => ops.push(sim.blk(0)),
-            "spend" => if sim.can(2) { ops.push(sim.blk(2)) } else if sim.can(1) { ops.push(sim.blk(1)) },
+            // the funding outpoint is spent: by a plain tx (mutual close), by the holder's commitment or by the
+            // counterparty's commitment (unilateral closes, outputs not yet swept)
+            "spend" => if sim.can(2) { ops.push(sim.blk(pick_u64(rng, spend_kinds))) } else if sim.can(1) { ops.push(sim.blk(1)) },
             "unblk" => if let Some(l) = sim.unblk() { ops.push(l) },
             "bad" => {
                 // make the chain state bad for new commitments: reorg the funding out, or spend it
@@ -314,13 +322,13 @@ pub fn gen_onchain_case(rng: &mut Rng) -> Vec<String> {
                         while sim.blocks.contains(&1) { ops.push(sim.unblk().unwrap()) }
                     } else {
                         if rng.chance(1, 2) { ops.push(sim.blk(0)) }
-                        ops.push(sim.blk(2));
+                        ops.push(sim.blk(pick_u64(rng, spend_kinds)));
                     }
                 }
             }
             "heal" => {
                 // back to a good state: reorg the spend out and/or (re)confirm the funding
-                while sim.blocks.contains(&2) { ops.push(sim.unblk().unwrap()) }
+                while sim.blocks.iter().any(|b| *b >= 2) { ops.push(sim.unblk().unwrap()) }
                 if sim.can(1) { ops.push(sim.blk(1)) }
                 if rng.chance(1, 2) { ops.push(sim.blk(0)) }
             }
@@ -451,6 +459,51 @@ impl Group for C05 {
                 "blk 1 5 1 0",
                 "hold 1 0 1999000 1000000 0 0 1",
             ]),
+            // FA-1: under the permissive filter an HTLC worth less than its second-stage fee makes PHASE-2 counterparty
+            // signing fail (HTLC tx cannot be built), while PHASE 1 signs the commitment only and succeeds
+            v(&[
+                "policy 0 4 144 1000000001 10000 1000 16777216 0 253 4294967 222000 1073741824",
+                "setup 0 16777216 0 6 6 1 0 0 0",
+                "cp 0 0 253 16750652 0 0 2 1 62205896 13451 226927654",
+                "cp 0 2 253 16750652 0 0 2 1 62205896 13451 226927654",
+            ]),
+            // on-chain validator, UNILATERAL close: funding confirmed, commitment 1 signed and 0 revoked, then the
+            // counterparty's commitment transaction confirms (outputs unswept): signing commitment 2 must be refused;
+            // same with the holder's commitment after the first one is reorged out
+            v(&[
+                "policy 1 4 2016 1000000001 10000 1000 16777216 0 253 333333 222000 0",
+                "setup 0 3000000 0 6 7 3 0 0 0",
+                "cp 0 0 0 0 2998000 0 0",
+                "hold 0 0 0 2998000 0 0 1",
+                "revoke 0",
+                "blk 1 4 1 0",
+                "cp 1 0 0 1000000 1998000 0 0",
+                "cprevoke 0",
+                "blk 4 5 2 1",
+                "cp 2 0 0 1100000 1898000 0 0",
+                "blk 0 6 3 2",
+                "cp 2 0 0 1100000 1898000 0 0",
+                "unblk 5 2 1",
+                "unblk 4 1 0",
+                "blk 3 5 2 1",
+                "cp 2 0 0 1100000 1898000 0 0",
+                "hold 1 0 1000000 1998000 0 0 1",
+                "unblk 4 1 0",
+                "cp 2 0 0 1100000 1898000 0 0",
+            ]),
+            // a refused setup (delays 3 / 2017, unsafe type) must leave nothing usable behind: the following
+            // requests on the same channel id find no ready channel, the repeated setup is refused again
+            v(&[
+                "policy 0 4 2016 1000000001 10000 1000 16777216 0 253 333333 222000 0",
+                "setup 0 3000000 0 3 2017 2 0 0 0",
+                "cp 0 0 0 0 2998000 0 0",
+                "setup 0 3000000 0 3 2017 2 0 0 0",
+                "hold 0 0 0 2998000 0 0 1",
+                "setup 0 3000000 0 3 7 1 0 0 0",
+                "cp 0 0 0 0 2998000 0 0",
+                "setup 0 3000000 0 6 7 1 0 0 0",
+                "cp 0 0 0 0 2998000 0 0",
+            ]),
             // on-chain validator: unburied funding, then buried, then closed on chain
             v(&[
                 "policy 1 4 2016 1000000001 10000 1000 16777216 0 253 333333 222000 0",
@@ -535,6 +588,12 @@ impl Group for C05 {
                 }
             }
         }
+        // sometimes the same setup is requested again somewhere later (after a refusal it must be refused
+        // again and must not have left a usable channel behind; after an acceptance it is a no-op)
+        if rng.chance(1, 5) {
+            let pos = rng.below(body.len() as u64 + 1) as usize;
+            body.insert(pos, plan.setup.line());
+        }
         ops.push(first_policy);
         ops.push(plan.setup.line());
         ops.extend(body);
@@ -545,6 +604,78 @@ impl Group for C05 {
     }
 }
 
+/// Implementation-only companion group: chain events that the unchanged signer cannot digest.
+/// F-C05-M1: the counterparty's PREVIOUS commitment (number `next_counterparty_commit_num - 2`, signed by us, not
+/// yet revoked by them -- a perfectly legal thing to find on chain) confirms: `ChainMonitor::on_add_block` panics
+/// (`Channel::get_spendable_htlc_indices` unwraps `get_counterparty_commitment_point(n)`, whose branch for the
+/// previous point tests `next == n` instead of `next == n + 2` and so never returns it).
+pub struct C05ChainEvents;
+
+impl Group for C05ChainEvents {
+    fn property(&self) -> &'static str {
+        "C05"
+    }
+    fn model(&self) -> Option<&'static str> {
+        None
+    }
+    fn rule(&self) -> &'static str {
+        "chain events: fixed cases in which a legal transaction spending the funding outpoint confirms (counterparty's previous unrevoked commitment); non-trivial = the block was delivered and a later commitment request was answered"
+    }
+    fn budget(&self, _tier: Tier) -> usize {
+        0
+    }
+    fn corpus(&self) -> Vec<Vec<String>> {
+        let v = |s: &[&str]| s.iter().map(|x| x.to_string()).collect::<Vec<_>>();
+        vec![v(&[
+            "policy 1 4 2016 1000000001 10000 1000 16777216 0 253 333333 222000 0",
+            "setup 0 3000000 0 6 7 1 0 0 0",
+            "blk 1 4 1 0",
+            "cp 0 0 0 0 2998000 0 0",
+            "hold 0 0 0 2998000 0 0 1",
+            "revoke 0",
+            "cp 1 0 0 1000000 1998000 0 0",
+            "blk 5 5 2 1",
+            "cp 1 0 0 1000000 1998000 0 0",
+        ]),
+        // the same defect through a reorg: the counterparty's commitment 0 confirms while it is the current one,
+        // commitment 1 is signed afterwards (on-chain gate downgraded to a warning), then the block is disconnected
+        v(&[
+            "policy 1 4 2016 1000000001 10000 1000 16777216 0 253 333333 222000 2048",
+            "setup 0 3000000 0 6 7 1 0 0 0",
+            "blk 1 4 1 0",
+            "cp 0 0 0 0 2998000 0 0",
+            "blk 4 5 2 1",
+            "cp 1 0 0 1000000 1998000 0 0",
+            "unblk 4 1 0",
+        ])]
+    }
+    fn gen_case(&self, _rng: &mut Rng, _tier: Tier) -> Vec<String> {
+        vec![]
+    }
+    fn exec_case(&self, ops: &[String]) -> CaseOut {
+        let mut out = run_case(ops);
+        for (i, (op, line)) in ops.iter().zip(out.out.clone().iter()).enumerate() {
+            if op.starts_with("blk 5") || op.starts_with("unblk") {
+                if line.starts_with("harness-panic") {
+                    out.violations.push(Violation {
+                        kind: "chain-event-panic-previous-counterparty-commitment".into(),
+                        desc: "the block in which the counterparty's previous, not yet revoked commitment confirms makes ChainMonitor::on_add_block panic (get_spendable_htlc_indices: get_counterparty_commitment_point(n).unwrap() on None)".into(),
+                        at: i,
+                    });
+                } else {
+                    let want: Vec<&str> = op.split_whitespace().collect();
+                    if *line != format!("ok {}", want[want.len() - 3..].join(" ")) {
+                        out.violations.push(Violation { kind: "chain-event-misread".into(), desc: format!("after {} the channel reads the chain as `{}`", op, line), at: i });
+                    }
+                }
+            }
+        }
+        out.nontrivial = out.out.iter().any(|l| l.starts_with("ok 5 2 1"))
+            && out.out.last().map(|l| l.starts_with("err:chain") || l.starts_with("ok 4 1 0")).unwrap_or(false);
+        out
+    }
+}
+
 pub fn groups() -> Vec<Box<dyn Group>> {
-    vec![Box::new(C05)]
+    vec![Box::new(C05), Box::new(C05ChainEvents)]
 }
